@@ -50,7 +50,7 @@ CFG = dict(
               "cubeQuads_construction_from_source", "cylinder_assembly_from_source",
               "hemisphere_connected", "uvSphereUnwelded_connected_mod_merge", "cylinder_connected_mod_merge"],
     streams=[dict(name="c18", n=dict(quick=30, thorough=60),
-                  ulps={"c18.pos.sphere": _SIN, "c18.pos.sphereu": _SIN, "c18.pos.hemi": _SIN, "c18.nrm.sphere": _SINN,
+                  ulps={"c18.pos.sphere": _SIN, "c18.possample.sphere": _SIN, "c18.pos.sphereu": _SIN, "c18.pos.hemi": _SIN, "c18.nrm.sphere": _SINN,
                         "c18.pos.cyl": _ROT, "c18.nrm.cyl": _ROTN, "c18.pos.cubeq": _ROT, "c18.nrm.cubeq": _ROTN})],
     trusted=T_COMMON + [
         "engine F extractor /verif/go/facts mode c18.loops (go/ast; loop nests, bounds, integer assignments, appends, guards of five constructors as a Model/LoopIR.lean program; refuses unrecognised shapes that write a tracked slice or integer; skips statements that write none) and the interpreter Model/LoopIR.lean (Go int in N, loop bounds evaluated once, body variables iteration-local)",
@@ -63,7 +63,8 @@ CFG = dict(
         "index lists, vertex counts, panics: the loop nests, loop bounds, integer assignments, appends and guards of UVSphere, UVSphereUnwelded, Hemisphere.UV, Circle.ToMesh and Cylinder.ToMesh (side strip; order and conditions of the two cap Appends) are REGENERATED from the Go source on every run (go/facts c18.loops -> Gen/PrimLoops.lean, a program of Model/LoopIR.lean) and the model's index lists / vertex counts / admissibility are PROVED equal to the interpretation of the extracted program for all parameters (*_indices_from_source, guards_from_source, cylinder_caps_from_source, uvSphereUnwelded_copy_map_from_source); what stays trusted/corresponded there: the extractor and the IR semantics (Go int modelled in N: on admissible parameters no extracted subtraction goes below 0; float64 modelled by the abstract Scalar operations, integer-valued constants as casts of naturals, decimal constants as num/den; statements that write no tracked slice, integer, float or vector used by a pushed vertex are skipped; an untranslatable float expression that reaches a vertex is refused), Mesh.Append's index shift (mesh.go) and NewTriangleMesh/SetFloat3Data wiring; on top of that the exact correspondence with the running constructors for every (rows, cols), sides <= 24 and sampled up to 512 remains",
         "vertex POSITION / NORMAL expressions: those of UVSphere, Hemisphere.UV, Circle.ToMesh and the side of Cylinder.ToMesh are REGENERATED (float/vector statements of the loop programs, Gen/PrimLoops.lean) and the model's uvSpherePos, uvSphereNormal, hemispherePos, circlePos/circleNormal, cylinderPos/cylinderNormal (side) are PROVED equal to their interpretation for all parameters and EVERY scalar type (syntactic equality: holds at the reals of the geometric theorems and at the Float the driver runs); the unwelded sphere's positions follow from the proved copy map. The cylinder's cap placement (Translate vectors, the FromTheta(pi,(1,0,0)) rotation of positions and normals, Append order/conditions) and the whole six-quad box construction (per face: Quad dimensions, rotation angle and axis through the structurally checked helper rotate, translation, Append order; Quad.ToMesh's four positions and normals) are REGENERATED too (go/facts c18.assembly -> Gen/PrimAssembly.lean) and Model/SolidsCode.lean's cylinderPosCode/cylinderNormalCode/cubeQuadsPosCode/cubeQuadsNormalCode are PROVED equal to their interpretation with the regenerated quaternion code, for every scalar (cubeQuads_construction_from_source, cylinder_assembly_from_source). What remains trusted there: the extractors, the interpretation Model/SolidsAssembly.lean (Translate = Add per vertex, RotateAttribute3DTransformer = Quaternion.Rotate per vector: mesh.go / meshops, not extracted), Go's exact constant folding of math.Pi*(3./2.) vs one Float multiplication (compared with 1e-14), and the welded box's positions beyond the extracted sign table",
         "vertex-manifoldness: one umbrella per (merged) vertex is now a THEOREM for every primitive at all sizes (uvSphere_oneUmbrella, hemisphere_oneUmbrella, uvSphereUnwelded_oneUmbrella_mod_merge, cylinder_oneUmbrella_mod_merge with explicitly exhibited link cycles; boxes via the executable checker, proved sound: umbrella_checker_sound); connectedness is a theorem for every primitive too (boxes by decide; uvSphere_connected, hemisphere_connected, uvSphereUnwelded_connected_mod_merge, cylinder_connected_mod_merge at all sizes); the oracle c18.holds.manifold additionally evaluates VertexManifold and Connected on the implementation's meshes",
-        "node wrappers (UvSphereNode, HemisphereNode, CylinderNode, CubeNode): their defaults and clamps (rows >= 2, columns >= 3 in UvSphereNode) are not extracted and not in a theorem; they are exercised by the harness through tiny graphs (nodes.Value -> wrapper) with inputs below / at / above the minimum and compared with the model at the clamped parameters as the source documents them; shared state between constructor calls is not modelled (the model is a pure function): kept-alive earlier meshes are re-read and re-checked after all later calls of the run (history replay)",
+        "node wrappers (UvSphereNode, HemisphereNode, CylinderNode, CubeNode): their defaults and clamps (rows >= 2, columns >= 3 in UvSphereNode) are not extracted and not in a theorem; they are exercised by the harness through tiny graphs (nodes.Value -> wrapper) with inputs below / at / above the minimum and with every subset of connected ports, and compared with the model at the clamped parameters as the source documents them; shared state between constructor calls is not modelled (the model is a pure function): kept-alive earlier meshes are re-read and re-checked after all later calls of the run (history replay)",
+        "implementation-side size coverage: exhaustive <= 24 per direction, sampled to 512, boundaries of powers of two up to 4097 in one direction (cylinder 4095/4096/4097 in every run), and one 363x363 welded sphere (131408 vertices; sampled positions / outward, full volume); larger or other size combinations are covered only by the all-sizes theorems about the regenerated programs (an implementation whose behaviour depends on size through code the extractor cannot translate is refused by the extractor: obligation broken without a failing input)",
         "outward = positive signed volume of every face against an interior point (star-shapedness); embeddedness is not stated separately; Closed is edge-manifoldness with consistent orientation",
         "hemisphere normals are not covered: the property's normal clause names sphere, box, cylinder. Note: Hemisphere{Radius:r}.UV(rows, cols) with ANY admissible parameters supplies positions.Normalized() as normals and vertex 0 is the origin, so its normal is (NaN, NaN, NaN) (reachable through the public constructor and HemisphereNode; excluded from C18 by the wording, documented in notes/C18.md); the unwelded sphere supplies no normals",
         "cylinder with fewer than 3 sides and a cap panics in Circle.ToMesh (fix fc0d720): corresponded via Solids.cylinderAdmissible; degenerate pipes (no caps) are corresponded (indices, vertex count) but are not solids and carry no oracle",
